@@ -81,7 +81,7 @@ def encoder_correspondence(ck, binpath, n):
     if rc != 0:
         ck.tie_broken("harness c26 build failed (rc=%s)" % rc, err[-2000:])
         return
-    cases = [json.loads(l) for l in out.splitlines() if l.strip().startswith("{")]
+    cases = [json.loads(l) for l in jlines(out) if l.strip().startswith("{")]
     terms = [bcase_to_coq(c) for c in cases]
     failing = ck.coq_failing("bcorr", terms, ["EV.C26.Model", "EV.C26.Corr"], check_fn="check_bcase", case_type="bcase", per_shard=30)
     for i in failing or []:
@@ -111,7 +111,7 @@ def run_search(ck, binpath, ndocs, maxpos, size, nobs):
         ck.tie_broken("harness c26 search failed (rc=%s)" % rc, err[-2000:])
         return []
     obs = []
-    for l in out.splitlines():
+    for l in jlines(out):
         if not l.strip().startswith("{"):
             continue
         v = json.loads(l)
@@ -167,7 +167,7 @@ def replay(ck, binpath, path):
             continue
         seen.add(t)
         rc, out, err = ck.run_bin(binpath, ["one", "--text-json", json.dumps(t)], timeout=600)
-        for l in out.splitlines():
+        for l in jlines(out):
             if l.strip().startswith("{"):
                 r = json.loads(l)
                 if "signature" in r:
